@@ -180,6 +180,10 @@ func Add(a, b *Term) *Term {
 	if a.Op == "-" && len(a.Args) == 2 && a.Args[1] == b {
 		return a.Args[0]
 	}
+	// y + (x - y)
+	if b.Op == "-" && len(b.Args) == 2 && b.Args[1] == a {
+		return b.Args[0]
+	}
 	return mk("+", "", nil, false, SInt, a, b)
 }
 
